@@ -11,7 +11,11 @@ open Atomman Atomman.C16
     fam rtol atol a b c alpha beta gamma -> family-or-none + 7 predicate bits
     ONE Box object kept between lines (state of the driver):
     bnew V(9) org(3) par(6) | bsetv V(9) par(6) | bset V(9) org(3) par(6) | bseto org(3)   -> ok
-    bfam rtol atol | bvc2c atol idx… | bplane atol idx… | bpos s(3) | brecip                 -> as fam/vc2c/plane; 3; 9 -/
+    bfam rtol atol | bvc2c atol idx… | bplane atol idx… | bpos s(3) | brecip                 -> as fam/vc2c/plane; 3; 9
+    the CALLER's memory (`Mem Rows`, second part of the state): arrays of index sets by address
+    mreset | malloc w v… -> addr | mscrib addr w v… -> ok | mdump -> w:v v v;w:…
+    mcall addr (p34 | v34 | p43 atol | v43 atol | reduce | p2c s | c2p s | bvc2c atol) -> addr | w:v…  (or err:…)
+    mconst fromstr codepoints… | mconst allidx m reduce                                  -> addr | w:v… -/
 def showV3 (v : V3 Rat) : String := showRats v.toList
 def showV4 (v : V4 Rat) : String := showRats [v.a, v.b, v.c, v.d]
 
@@ -122,8 +126,115 @@ def handleC16 (toks : List String) : String :=
     | _ => err "format"
   | _ => err "op"
 
+/-! caller-side memory (`Mem Rows`): arrays of index sets the harness holds as real numpy arrays -/
+
+def chunk (w : Nat) : Nat → List Rat → Rows
+  | 0, _ => []
+  | fuel + 1, xs => if w = 0 ∨ xs.length < w then [] else xs.take w :: chunk w fuel (xs.drop w)
+
+def rowsOf (w : Nat) (xs : List Rat) : Rows := chunk w xs.length xs
+
+def showRows (r : Rows) : String :=
+  toString (match r with | [] => 0 | x :: _ => x.length) ++ ":" ++ showRats r.flatten
+
+def v4Of? : List Rat → Option (V4 Rat)
+  | [a, b, c, d] => some ⟨a, b, c, d⟩
+  | _ => none
+
+def ratInt? (q : Rat) : Option Int := if q.den = 1 then some q.num else none
+
+/-- a function of the property applied to an array of index sets (rows): the 4 -> 3 conversions apply ONE guard to
+    the whole array (`plane4to3Arr`), everything else works row by row. -/
+def fnOf (box : Option (BoxObj Rat)) : List String → Option (Rows → Except Err Rows)
+  | ["p34"] => some fun rows => rows.mapM fun r =>
+      match V3.ofList? r with
+      | some p => let q := plane3to4 p; .ok [q.a, q.b, q.c, q.d]
+      | none => .error .value
+  | ["v34"] => some fun rows => rows.mapM fun r =>
+      match V3.ofList? r with
+      | some p => let q := vector3to4 p; .ok [q.a, q.b, q.c, q.d]
+      | none => .error .value
+  | ["p43", atol] => (parseRat? atol).map fun atol rows =>
+      match rows.mapM v4Of? with
+      | some qs => (plane4to3Arr atol qs).map (·.map V3.toList)
+      | none => .error .value
+  | ["v43", atol] => (parseRat? atol).map fun atol rows =>
+      match rows.mapM v4Of? with
+      | some qs => (vector4to3Arr atol qs).map (·.map V3.toList)
+      | none => .error .value
+  | ["reduce"] => some fun rows => rows.mapM fun r =>
+      match r.mapM ratInt? with
+      | some l => (reduceIndices l).map (·.map fun (i : Int) => (i : Rat))
+      | none => .error .format
+  | ["p2c", setting] => some fun rows => rows.mapM fun r =>
+      match V3.ofList? r with
+      | some p => (vectorPrimitiveToConventional (K := Rat) setting p).map V3.toList
+      | none => .error .value
+  | ["c2p", setting] => some fun rows => rows.mapM fun r =>
+      match V3.ofList? r with
+      | some p => (vectorConventionalToPrimitive (K := Rat) setting p).map V3.toList
+      | none => .error .value
+  | ["bvc2c", atol] =>
+    match box, parseRat? atol with
+    | some o, some atol => some fun rows =>
+        -- four-index arrays: hexagonal test, then ONE guard for the whole array
+        match rows with
+        | (_ :: _ :: _ :: _ :: []) :: _ =>
+          if o.isHex then
+            match rows.mapM v4Of? with
+            | some qs => (vector4to3Arr atol qs).map (·.map fun p => (M3.vecMul p o.box.vects).toList)
+            | none => .error .value
+          else .error .value
+        | _ => rows.mapM fun r => (o.vectorCrystalToCartesian atol r).map V3.toList
+    | _, _ => none
+  | _ => none
+
+structure St where
+  box : Option (BoxObj Rat)
+  mem : Mem Rows
+
+def showCall : Except Err (Nat × Rows) → String
+  | .ok (a, r) => toString a ++ " | " ++ showRows r
+  | .error e => e.toString
+
+def stepMem (st : St) (toks : List String) : Option (St × String) :=
+  match toks with
+  | ["mreset"] => some ({ st with mem := Mem.empty }, "ok")
+  | "malloc" :: w :: rest =>
+    match w.toNat?, parseRats? rest with
+    | some w, some xs =>
+      let (m, a) := st.mem.alloc (rowsOf w xs)
+      some ({ st with mem := m }, toString a)
+    | _, _ => some (st, err "format")
+  | "mscrib" :: a :: w :: rest =>
+    match a.toNat?, w.toNat?, parseRats? rest with
+    | some a, some w, some xs =>
+      if a < st.mem.size then some ({ st with mem := st.mem.scribble a (rowsOf w xs) }, "ok") else some (st, err "format")
+    | _, _, _ => some (st, err "format")
+  | "mcall" :: a :: fn =>
+    match a.toNat?, fnOf st.box fn with
+    | some a, some f =>
+      match st.mem.call f a with
+      | (m, some r) => some ({ st with mem := m }, showCall r)
+      | (_, none) => some (st, err "format")
+    | _, _ => some (st, err "format")
+  | "mconst" :: "fromstr" :: rest =>
+    match parseNats? rest with
+    | some codes =>
+      let (m, r) := st.mem.callConst ((fromChars (codes.map Char.ofNat)).map fun l => [l])
+      some ({ st with mem := m }, showCall r)
+    | none => some (st, err "format")
+  | ["mconst", "allidx", mx, r] =>
+    match mx.toInt?, parseBool? r with
+    | some mx, some r =>
+      let (m, res) := st.mem.callConst (.ok ((allIndices mx r).map (·.map fun (i : Int) => (i : Rat))))
+      some ({ st with mem := m }, showCall res)
+    | _, _ => some (st, err "format")
+  | ["mdump"] => some (st, ";".intercalate (st.mem.cells.map showRows))
+  | _ => none
+
 /-- the object-level operations: the state is the one `Box` object the harness is working on. -/
-def stepC16 (st : Option (BoxObj Rat)) (toks : List String) : Option (BoxObj Rat) × String :=
+def stepBox (st : Option (BoxObj Rat)) (toks : List String) : Option (BoxObj Rat) × String :=
   match toks with
   | "bnew" :: rest =>
     match parseRats? rest with
@@ -187,4 +298,11 @@ def stepC16 (st : Option (BoxObj Rat)) (toks : List String) : Option (BoxObj Rat
     | none => (st, err "format")
   | _ => (st, handleC16 toks)
 
-def main : IO Unit := runDriverS stepC16 none
+def stepC16 (st : St) (toks : List String) : St × String :=
+  match stepMem st toks with
+  | some r => r
+  | none =>
+    let (b, out) := stepBox st.box toks
+    ({ st with box := b }, out)
+
+def main : IO Unit := runDriverS stepC16 ⟨none, Mem.empty⟩
